@@ -1,5 +1,6 @@
 """C09 - junctions cut off from all sources are zeroed; connected ones never are."""
 from .. import gen, e1, inv
+from ..oracles import V
 from .c01 import InvProp
 
 
@@ -32,12 +33,32 @@ class C09(InvProp):
                 scn['controls'].append({'name': 'iso%d' % (len(scn['controls']) + 1), 'kind': 'simple',
                                         'cond': {'t': 'simtime', 'rel': '=', 'thr': t},
                                         'then': [{'link': l['id'], 'attr': 'status', 'value': rng.pick(['OPEN', 'CLOSED', 'CLOSED'])}], 'priority': 3})
+        if len(targets) >= 2 and rng.chance(0.3):
+            # a swap: at ONE instant one district is reconnected (its closed feed opens) while another link closes
+            i1 = rng.irange(0, len(targets) - 1)
+            i2 = (i1 + rng.irange(1, len(targets) - 1)) % len(targets)
+            l1, l2 = targets[i1], targets[i2]
+            if l1['type'] == 'pipe':
+                l1['status'] = 'CLOSED'
+            t = gen.time_instant(rng, scn)
+            for l_, val in ((l1, 'OPEN'), (l2, 'CLOSED')):
+                scn['controls'].append({'name': 'iso%d' % (len(scn['controls']) + 1), 'kind': 'simple', 'cond': {'t': 'simtime', 'rel': '=', 'thr': t},
+                                        'then': [{'link': l_['id'], 'attr': 'status', 'value': val}], 'priority': 3})
         if rng.chance(0.25):
             gen.add_level_controls(rng, scn, 1)
         e1.add_faults(rng, scn, p_pause=0.5, p_rescue=0.1)
         if rng.chance(0.15):
             scn['edits'] = e1.gen_edits(rng, scn)
         return scn
+
+    def attribute_exception(self, scn, out, v):
+        # "the simulator still solves the rest of the network": an exception raised by the isolation bookkeeping, or a model left with
+        # unequal numbers of equations and unknowns after links were switched, is a violation of C09; anything else belongs to C16
+        tb = out.exc_tb or ''
+        msg = str(out.exc)
+        if 'isolated' in tb or 'network_isolation' in tb or 'number of constraints and variables' in msg:
+            return V('c09.isolation_raises', '%s@%s' % (type(out.exc).__name__, out.exc_site or ''), (msg + ' | ' + tb)[-700:])
+        return None
 
     def oracle(self, scn, out, c):
         return inv.c09(scn, out, out.tables, c)
